@@ -160,13 +160,15 @@ Inductive cmd :=
 | ListAppend (l v : reg)                           (* l.append(v)                IN PLACE          *)
 | ListSet (l : reg) (i : nat) (v : reg)            (* l[i] = v                   IN PLACE          *)
 | ListSliceApp (r l : reg) (from : nat) (v : reg)  (* r := l[from:] + [v]        new list          *)
-| Move (r src : reg).                              (* r := src                   alias             *)
+| Move (r src : reg)                               (* r := src                   alias             *)
+| ListOf (r : reg) (items : list reg)              (* r := [items...]  display / comprehension: new list  *)
+| DictOf (r : reg) (kvs : list (Z * reg)).         (* r := {k: v ...}  display / comprehension / dict(pairs) *)
 
 Definition wf_cmd (c : cmd) : bool :=
   match c with
   | Field r _ _ | Index r _ _ | DictGet r _ _ _ => negb (is_own r)
   | Call _ _ _ don => forallb is_own don
-  | MkRec _ _ | DictNew _ | DictCopy _ _ | ListNew _ | ListSliceApp _ _ _ _ => true
+  | MkRec _ _ | DictNew _ | DictCopy _ _ | ListNew _ | ListSliceApp _ _ _ _ | ListOf _ _ | DictOf _ _ => true
   | DictSet d _ _ | ListAppend d _ | ListSet d _ _ => is_own d
   | Move r src => negb (is_own r) || is_own src
   end.
@@ -251,6 +253,12 @@ Definition exec1 (c : cmd) (σ : st) : option st :=
       | _, _ => None end
   | Move r src =>
       match lookup e src with Some l => Some (bind σ r l) | None => None end
+  | ListOf r items =>
+      match mapM (lookup e) items with Some ls => Some (alloc σ r (CList ls)) | None => None end
+  | DictOf r kvs =>
+      match mapM (lookup e) (map snd kvs) with
+      | Some ls => Some (alloc σ r (CDict (fold_left (fun acc kv => dict_set acc (fst kv) (snd kv)) (combine (map fst kvs) ls) [])))
+      | None => None end
   end.
 
 Fixpoint exec (p : list cmd) (σ : st) : option st :=
@@ -397,6 +405,8 @@ Proof.
     split; [|split]; cbn; auto.
     + intros ? ?; reflexivity.
     + apply own_avoid_bind; auto. intros O. rewrite O in W. cbn in W. destruct src; try discriminate. eapply OA; eauto.
+  - (* ListOf *) destruct (mapM (lookup (ven σ)) items); try discriminate. inversion E; subst. apply res_alloc; auto.
+  - (* DictOf *) destruct (mapM (lookup (ven σ)) (map snd kvs)); try discriminate. inversion E; subst. apply res_alloc; auto.
 Qed.
 
 Theorem exec_protects p : forall σ σ', wf_script p = true -> exec p σ = Some σ' ->
@@ -451,7 +461,7 @@ Qed.
 Definition binder (c : cmd) : option reg :=
   match c with
   | Field r _ _ | Index r _ _ | DictGet r _ _ _ | Call r _ _ _ | MkRec r _ | DictNew r | DictCopy r _
-  | ListNew r | ListSliceApp r _ _ _ | Move r _ => Some r
+  | ListNew r | ListSliceApp r _ _ _ | Move r _ | ListOf r _ | DictOf r _ => Some r
   | DictSet _ _ _ | ListAppend _ _ | ListSet _ _ _ => None
   end.
 
@@ -484,3 +494,89 @@ Proof. intros A B. rewrite forallb_app, A, B. reflexivity. Qed.
 Lemma keeps_flat_map {A} r (f : A -> list cmd) l :
   (forall x, forallb (keeps r) (f x) = true) -> forallb (keeps r) (flat_map f l) = true.
 Proof. intros H. induction l; cbn; [reflexivity|]. apply keeps_app; auto. Qed.
+
+(* ---- effect skeletons ------------------------------------------------------------------------
+   The container-level effects of a piece of Python code, in program order (loop bodies once):
+   which dict / list objects are created (and whether as a copy / slice of an input container),
+   which in-place writes happen and whether their target is an object created by this very
+   call (`own`), which calls donate buffers and whether the donated operands are own.
+   tools/anchors/c10_effects.py extracts this skeleton from the source of every apply();
+   `shape` computes it for a script. *)
+Inductive ecmd :=
+| EAllocDict (copies_input : bool)
+| EAllocList (from_input : bool)
+| EDictSet (target_own : bool)
+| EListAppend (target_own : bool)
+| EListSet (target_own : bool)
+| EDonate (args_own : list bool).
+
+Definition ewf (e : ecmd) : bool :=
+  match e with
+  | EAllocDict _ | EAllocList _ => true
+  | EDictSet o | EListAppend o | EListSet o => o
+  | EDonate l => forallb (fun b => b) l
+  end.
+
+Definition shape (c : cmd) : list ecmd :=
+  match c with
+  | DictNew _ => [EAllocDict false]
+  | DictCopy _ d => [EAllocDict (negb (is_own d))]
+  | ListNew _ => [EAllocList false]
+  | ListSliceApp _ l _ _ => [EAllocList (negb (is_own l))]
+  | DictSet d _ _ => [EDictSet (is_own d)]
+  | ListAppend l _ => [EListAppend (is_own l)]
+  | ListSet l _ _ => [EListSet (is_own l)]
+  | Call _ _ _ don => match don with [] => [] | _ => [EDonate (map is_own don)] end
+  | ListOf _ _ => [EAllocList false]
+  | DictOf _ _ => [EAllocDict false]
+  | Field _ _ _ | Index _ _ _ | DictGet _ _ _ _ | MkRec _ _ | Move _ _ => []
+  end.
+
+Definition skeleton (p : list cmd) : list ecmd := flat_map shape p.
+
+(* the container part of a skeleton: donations happen inside library code (for_each_client,
+   tree_util), not in the text of apply(), and are tied separately *)
+Definition no_donation (e : ecmd) : bool := match e with EDonate _ => false | _ => true end.
+Definition container_skeleton (p : list cmd) : list ecmd := filter no_donation (skeleton p).
+
+Lemma wf_script_skeleton p : wf_script p = true -> forallb ewf (skeleton p) = true.
+Proof.
+  unfold wf_script, skeleton. induction p as [|c p IH]; cbn; intros W; [reflexivity|].
+  apply andb_true_iff in W as [W1 W2]. rewrite forallb_app, (IH W2), andb_true_r.
+  destruct c; cbn in *; auto; try (rewrite W1; reflexivity).
+  destruct don; cbn in *; auto. rewrite andb_true_r.
+  apply andb_true_iff in W1 as [A B]. rewrite A. cbn. clear - B. induction don; cbn in *; auto.
+  apply andb_true_iff in B as [B1 B2]. rewrite B1. auto.
+Qed.
+
+(* what is compared between the source and a script: allocations that are not copies of an input
+   container are noise (displays passed as arguments, comprehensions ...); consecutive repetitions
+   of the same effect are merged, so that the comparison does not depend on how often a loop body
+   is unrolled or on both branches of an `if` being listed *)
+Fixpoint bools_eqb (x y : list bool) : bool :=
+  match x, y with [] , [] => true | a :: x', b :: y' => Bool.eqb a b && bools_eqb x' y' | _, _ => false end.
+
+Definition ecmd_eqb (a b : ecmd) : bool :=
+  match a, b with
+  | EAllocDict x, EAllocDict y | EAllocList x, EAllocList y | EDictSet x, EDictSet y
+  | EListAppend x, EListAppend y | EListSet x, EListSet y => Bool.eqb x y
+  | EDonate x, EDonate y => bools_eqb x y
+  | _, _ => false
+  end.
+
+Definition significant (e : ecmd) : bool :=
+  match e with EAllocDict c | EAllocList c => c | _ => true end.
+
+Fixpoint collapse (l : list ecmd) : list ecmd :=
+  match l with
+  | [] => []
+  | a :: r => match collapse r with
+              | b :: r' => if ecmd_eqb a b then b :: r' else a :: b :: r'
+              | [] => [a]
+              end
+  end.
+
+(* of the source text: everything significant, donations included *)
+Definition essence (l : list ecmd) : list ecmd := collapse (filter significant l).
+(* of a script: its own donations (library internals) are left out *)
+Definition script_essence (p : list cmd) : list ecmd := essence (container_skeleton p).
